@@ -1,6 +1,7 @@
 (* C14 -- Surface Evolver dumps are parsed faithfully.  Statements only (token level: lines already split on whitespace). *)
 From Coq Require Import ZArith List Bool String.
-From Forsys Require Import Model.SEParse Proofs.SEParseProofs.
+From Coq Require Import QArith Qabs.
+From Forsys Require Import Model.SEParse Proofs.SEParseProofs Model.Round Proofs.RoundProofs.
 Import ListNotations.
 
 (* one cell per face, its loop read back whole, however the loop is broken into continuation lines *)
@@ -47,9 +48,31 @@ Example C14_wrapped_face :
   parse_faces [["7"; "1"; "-2"; "\"]; ["3"; "\"]; ["-4"; "/*area"; "-500*/"]]%string = (["7"], [["1"; "-2"; "3"; "-4"]])%string.
 Proof. vm_compute. reflexivity. Qed.
 
+(* numeric fields: round(value, k) with k = 3 for coordinates and k = 4 for densities and multipliers (Model/Round.v; the value is the exact
+   value of the double that float() made of the token).  The stored number is a k-decimal number, no k-decimal number is nearer to the
+   value, it is within half a unit of the k-th decimal, an exact tie goes to the even neighbour, a record that has no more than k decimals
+   is stored as written, rounding twice changes nothing, and the order and the sign symmetry of the records are kept. *)
+Theorem C14_numeric_field_is_nearest_decimal : forall k x m,
+  Zpos (Qden (round_dec k x)) = pow10 k /\ (Qabs (x - round_dec k x) <= Qabs (x - (m # Z.to_pos (pow10 k))))%Q /\ (Qabs (x - round_dec k x) <= 1 # (2 * Z.to_pos (pow10 k)))%Q.
+Proof. intros k x m. exact (conj (round_dec_den k x) (conj (round_dec_nearest k x m) (round_dec_within_half k x))). Qed.
+Theorem C14_numeric_field_ties_to_even : forall n d, (0 < d)%Z -> (2 * Z.abs (n - d * rhe n d) = d)%Z -> Z.even (rhe n d) = true.
+Proof. exact rhe_tie_even. Qed.
+Theorem C14_short_record_stored_as_written : forall k m, round_num k (m # Z.to_pos (pow10 k)) = m.
+Proof. exact round_dec_exact. Qed.
+Theorem C14_numeric_field_stable : forall k x y,
+  round_dec k (round_dec k x) = round_dec k x /\ ((x == y)%Q -> round_dec k x = round_dec k y) /\ ((x <= y)%Q -> (round_num k x <= round_num k y)%Z) /\ round_num k (- x) = (- round_num k x)%Z.
+Proof. intros k x y. exact (conj (round_dec_idempotent k x) (conj (round_dec_compat k x y) (conj (round_dec_monotone k x y) (round_dec_opp k x)))). Qed.
+Example C14_rounding_examples :
+  round_num 3 (1 # 16) = 62%Z /\ round_num 3 (3 # 16) = 188%Z /\ round_num 3 (-1 # 16) = (-62)%Z /\ round_num 4 (15 # 32) = 4688%Z.
+Proof. exact round_dec_ties. Qed.
+
 Print Assumptions C14_face_roundtrip.
 Print Assumptions C14_faces_roundtrip.
 Print Assumptions C14_wrapping_irrelevant.
 Print Assumptions C14_tail_vertex_sign.
 Print Assumptions C14_orphans_dropped.
 Print Assumptions C14_cycle_steps_are_loop_edges.
+Print Assumptions C14_numeric_field_is_nearest_decimal.
+Print Assumptions C14_numeric_field_ties_to_even.
+Print Assumptions C14_short_record_stored_as_written.
+Print Assumptions C14_numeric_field_stable.
